@@ -83,6 +83,40 @@ def pair_strings():
     return out
 
 
+UNICODE_SPECIAL = ["\ufeff", "\u200b", "\u00a0", "\u2028", "\u2029", "\u0085", "\u200f", "\u202e", "\x0b", "\x0c", "\x00", "\x1a", "\ufffd",
+                   "\u0301", "\U0001f600", "\u00df", "\u3000", "\u00ad", "\ufe0f", "\U000e0001"]
+
+
+def unicode_special_strings():
+    """Code points that editors, operating systems and normalisers treat specially (byte order mark, zero-width and
+    no-break spaces, line / paragraph separators, NEL, bidi marks, NUL, Ctrl-Z, replacement character, combining and
+    4-byte characters) at the very start, after the first token, before a line break, inside a string / comment,
+    and at the end of short sources."""
+    bases = ["from a", "from a\nselect b", "let x = 1", "from t | filter a > 1 # c\nsort b", "select {s = \"q\"}", "a", "1..2", "@2020-01-01", "f\"{a}\"", "#! d\nfrom t", ""]
+    out = []
+    for u in UNICODE_SPECIAL:
+        for b in bases:
+            out.append(u + b)
+            out.append(u + u + b)
+            out.append(u + "\n" + b)
+            out.append(b + u)
+            out.append(b + "\n" + u)
+            if " " in b:
+                i = b.index(" ")
+                out.append(b[:i] + u + b[i:])
+                out.append(b[:i + 1] + u + b[i + 1:])
+            if "\n" in b:
+                i = b.index("\n")
+                out.append(b[:i] + u + b[i:])
+            if "\"" in b:
+                i = b.index("\"") + 1
+                out.append(b[:i] + u + b[i:])
+            if "#" in b:
+                i = b.index("#") + 1
+                out.append(b[:i] + u + b[i:])
+    return out
+
+
 def run(tier, seed):
     run = core.Run("C17", tier, seed)
     N = core.NCPU
@@ -103,7 +137,7 @@ def run(tier, seed):
     n_exhaustive = total["total"]
     # pairs of fragments + random sequences + corpus
     rng = core.shard_rng(seed, "C17", 0)
-    srcs = pair_strings() + corpus.sources()
+    srcs = pair_strings() + unicode_special_strings() + corpus.sources()
     for s in corpus.sources():
         # prefixes of corpus programs stress unterminated constructs
         for _ in range(3):
